@@ -192,7 +192,8 @@ def build_arg(pkg, v):
             obj = getattr(importlib.import_module(pkg + ".models"), x[0]).from_dict(unjson(x[1]))
             for attr, hx in (x[2] if len(x) > 2 else {}).items():       # binary attributes cannot come from JSON: set them on the object
                 T = importlib.import_module(pkg + ".types")
-                setattr(obj, attr, T.File(payload=io.BytesIO(bytes.fromhex(hx)), file_name=attr + ".bin", mime_type="application/x-test"))
+                mk = lambda h, n: T.File(payload=io.BytesIO(bytes.fromhex(h)), file_name=n + ".bin", mime_type="application/x-test")
+                setattr(obj, attr, [mk(h, "%s%d" % (attr, n)) for n, h in enumerate(hx)] if isinstance(hx, list) else mk(hx, attr))
             return obj
         if k == "@unset":
             return importlib.import_module(pkg + ".types").UNSET
